@@ -279,6 +279,46 @@ func genC08(env *core.Env, emit func(core.Case)) {
 			env.Count("retry/" + rd.Err)
 		}
 	}
+	// every value of the first byte of a record's body and every content type, in both directions, while
+	// the Conn still inspects records (ECH accepted) and after: the peers choose these bytes
+	for _, accepted := range []bool{true, false} {
+		for _, dir := range []string{"read", "write"} {
+			idx++
+			keys, rec, _, reg := c07Hello(r, accepted)
+			_ = keys
+			w := ""
+			var ops []core.Op
+			for t := 0; t < 256 && w == ""; t++ {
+				for _, ct := range []byte{22, byte(t)} {
+					s := connh.NewSess(keys)
+					reg(s)
+					if res := s.New(oneChunk(rec), "eof"); res.Err != "-" {
+						continue
+					}
+					body := gen.Cat([]byte{byte(t)}, gen.LP24(gen.RandBytes(r, r.IntN(40))))
+					if ct != 22 {
+						body = gen.RandBytes(r, 1+r.IntN(8))
+					}
+					var io connh.IORes
+					if dir == "read" {
+						s.Read(70000)
+						s.Feed([][]byte{gen.Record(ct, 0x0303, body), gen.Record(23, 0x0303, []byte("x"))}, "eof")
+						io = s.Read(70000)
+					} else {
+						io = s.Write(gen.Cat(gen.Record(ct, 0x0303, body), gen.Record(23, 0x0303, []byte("x"))))
+					}
+					if io.Err == "panic" {
+						w = fmt.Sprintf("%s panics on a record of content type %d whose body starts with byte %d: %s", dir, ct, t, io.Panic)
+					}
+					ops = append(ops, s.Ops...)
+				}
+			}
+			ops = append(ops, core.Op{Kind: 'X', Note: "no record type / handshake message type makes Read or Write panic", Want: w})
+			emit(core.Case{Name: fmt.Sprintf("bytesweep-%s/%d", dir, idx), Stream: "bytesweep", Ops: ops, Key: "bytesweep-" + dir,
+				Sig: fmt.Sprintf("bytesweep-%s/acc%v", dir, accepted), Sample: map[string]any{"mutator": "bytesweep-" + dir, "accepted": accepted}})
+			env.Count("bytesweep/" + dir)
+		}
+	}
 	// stall at every byte offset of the first record under a deadline; heap growth
 	{
 		_, sealed := validTuple()
@@ -330,9 +370,9 @@ func genC08(env *core.Env, emit func(core.Case)) {
 		bigT := uint16(0xffa0)
 		otherT := uint16(0xffa1)
 		for vi, refs := range [][]uint16{
-			{bigT},                                   // control: one reference, accepted
-			repeatU16([]uint16{bigT}, 127),           // the same large extension 127 times
-			repeatU16([]uint16{bigT, otherT}, 60),    // two extensions alternating
+			{bigT},                                // control: one reference, accepted
+			repeatU16([]uint16{bigT}, 127),        // the same large extension 127 times
+			repeatU16([]uint16{bigT, otherT}, 60), // two extensions alternating
 			repeatU16([]uint16{otherT, bigT, bigT}, 40),
 		} {
 			idx++
